@@ -182,6 +182,19 @@ func TestCheck(t *testing.T) {
 		return
 	}
 	r.Mandatory("fork:phase0", "fork:altair", "fork:bellatrix", "fork:capella", "fork:deneb", "block-with>=3-kinds", "post-upgrade-epoch-block", "exit-behind-nonempty-queue", "withdrawal-carrying-payload")
+	// ---- class tours: directed templates for deep situations the free generator reaches too rarely
+	nt := 2
+	if r.Thorough() {
+		nt = 24
+	}
+	r.Search(t, "tour-withdrawal-edges", 101, nt, func(rt *rapid.T) (any, *report.Failure) {
+		cc := sim.TourWithdrawalEdges(rt, nil)
+		return cc, run(r, cc)
+	})
+	r.Search(t, "tour-deposits", 102, nt, func(rt *rapid.T) (any, *report.Failure) {
+		cc := sim.TourDeposits(rt, nil)
+		return cc, run(r, cc)
+	})
 	opts := sim.GenOpts{CustomPct: 75, AllowMainnet: true, MaxSlots: 40, BlockPct: 75, MaxSkip: 1, OpsBias: 60}
 	r.Search(t, "chains", 0, r.N(320, 5000), func(rt *rapid.T) (any, *report.Failure) {
 		cc := sim.GenChainCase(rt, opts)
